@@ -753,6 +753,10 @@ class Name:
                         out += label.lower()
                     else:
                         out += label
+                if len(out) > 255:
+                    # The name made absolute with the origin does not fit in the DNS
+                    # limits (the compressing path raises here too).
+                    raise NameTooLong
             return bytes(out)
 
         labels: Iterable[bytes]
